@@ -436,7 +436,7 @@ func c06r2(c *Ctx) {
 			bad = append(bad, "enclosing function does not return the accumulated list")
 		} else {
 			for _, rc := range p.pfReturnCases(fn) {
-				if pfReturnInRegion(rc, region) || !p.pfPossiblyNil(rc.Results[eiFn]) {
+				if pfReturnInRegion(rc, region) || !p.pfPossiblyNilUnder(rc.Results[eiFn], rc.Facts) {
 					continue
 				}
 				from := rc.Ret.Block()
@@ -617,6 +617,9 @@ func c06r3(c *Ctx) {
 			}
 			switch {
 			case cs.Type == "Succeeded":
+				if pfDeadByFacts(p.FactsAt(cs.Call.Instr.Block())) {
+					continue // copy of the write under a constant-false guard (never executes)
+				}
 				sets++
 				o := c.Ob(fn, "set-Succeeded", cs.Call.Instr, "Succeeded is set to True only, under Available=True of this pass, survived delay and not in transition")
 				var bad []string
@@ -636,7 +639,7 @@ func c06r3(c *Ctx) {
 				if !availSet {
 					bad = append(bad, "not preceded by the Available=True write of this pass")
 				}
-				if _, ok := p.findFactCall(fs, true, []string{"method:hasSurvivedDelay"}, nil); !ok {
+				if !p.mwHoldsOnAllPaths(cs.Call.Instr.Block(), func(fs []Fact) bool { return p.c06DelaySurvived(fs, 0) }) {
 					bad = append(bad, "not guarded by hasSurvivedDelay")
 				}
 				inTr := false
@@ -754,6 +757,114 @@ func (p *Program) c06CouldBeObjectSet(t types.Type) bool {
 		if types.Identical(t, pt) {
 			return true
 		}
+	}
+	return false
+}
+
+// c06DelaySurvived: the facts establish that the success delay has elapsed — the guard the
+// reconciler's hasSurvivedDelay gives, judged by what it tests rather than by its name:
+//   - `X.GetSuccessDelaySeconds() == 0` (no delay configured), or
+//   - `<clock>.Now().After(T)` / `T.Before(<clock>.Now())` with T computed from the
+//     LastTransitionTime of a condition, or
+//   - a true result of a workspace predicate each of whose possibly-true returns establishes one of
+//     the above (the helper itself, under any name, as a method or a function).
+//
+// A disjunction of the first two is recognised by the callers through mwHoldsOnAllPaths /
+// mwHoldsCaseSplit (each way into the guarded block establishes one of them).
+func (p *Program) c06DelaySurvived(fs []Fact, depth int) bool {
+	isNow := func(v ssa.Value) bool {
+		call, _ := asCall(v)
+		return call != nil && calleeName(call.Common()) == "Now" && len(callArgs(call.Common())) == 0
+	}
+	for _, f := range fs {
+		if b, ok := f.Cond.(*ssa.BinOp); ok && (b.Op == token.EQL || b.Op == token.NEQ) && (b.Op == token.EQL) == f.Pol {
+			for _, pair := range [][2]ssa.Value{{b.X, b.Y}, {b.Y, b.X}} {
+				if k, isC := constInt(pair[1]); isC && k == 0 {
+					if g, _ := asCall(pair[0]); g != nil && calleeName(g.Common()) == "GetSuccessDelaySeconds" {
+						return true
+					}
+				}
+			}
+		}
+		call, _ := asCall(f.Cond)
+		if call == nil || !f.Pol {
+			continue
+		}
+		switch calleeID(call.Common()) {
+		case "(time.Time).After":
+			if a := call.Common().Args; len(a) == 2 && isNow(a[0]) && c06MentionsField(a[1], "LastTransitionTime", 0) {
+				return true
+			}
+		case "(time.Time).Before":
+			if a := call.Common().Args; len(a) == 2 && isNow(a[1]) && c06MentionsField(a[0], "LastTransitionTime", 0) {
+				return true
+			}
+		}
+		g := staticCallee(call.Common())
+		if g == nil || g.Blocks == nil || depth > 1 || !strings.HasPrefix(funcPkgPath(g), modPKO) {
+			continue
+		}
+		if r := g.Signature.Results(); r.Len() != 1 || r.At(0).Type().String() != "bool" {
+			continue
+		}
+		all, n := true, 0
+		for _, rc := range p.returnCases(g) {
+			res := rc.Results[0]
+			facts := rc.Facts
+			if cb, isC := constBool(res); isC {
+				if !cb {
+					continue
+				}
+			} else {
+				facts = append(append([]Fact{}, facts...), p.mkFact(res, true))
+			}
+			n++
+			pred := func(fs []Fact) bool { return p.c06DelaySurvived(fs, depth+1) }
+			if p.mwHoldsCaseSplit(facts, pred, 0) {
+				continue
+			}
+			if _, isC := constBool(res); isC && rc.Pred == nil && p.mwHoldsOnAllPaths(rc.Ret.Block(), pred) {
+				continue
+			}
+			all = false
+		}
+		if all && n > 0 {
+			return true
+		}
+	}
+	return false
+}
+
+// c06MentionsField: the computation of v reads a struct field with that name.
+func c06MentionsField(v ssa.Value, field string, d int) bool {
+	if d > 8 || v == nil {
+		return false
+	}
+	switch x := stripConv(v).(type) {
+	case *ssa.BinOp:
+		return c06MentionsField(x.X, field, d+1) || c06MentionsField(x.Y, field, d+1)
+	case *ssa.Phi:
+		for _, e := range x.Edges {
+			if c06MentionsField(e, field, d+1) {
+				return true
+			}
+		}
+	case *ssa.Call:
+		for _, a := range x.Common().Args {
+			if c06MentionsField(a, field, d+1) {
+				return true
+			}
+		}
+	case *ssa.Convert:
+		return c06MentionsField(x.X, field, d+1)
+	case *ssa.Extract:
+		return c06MentionsField(x.Tuple, field, d+1)
+	case *ssa.Field:
+		return fieldName(x.X.Type(), x.Field) == field || c06MentionsField(x.X, field, d+1)
+	case *ssa.FieldAddr:
+		return fieldName(x.X.Type(), x.Field) == field || c06MentionsField(x.X, field, d+1)
+	case *ssa.UnOp:
+		return c06MentionsField(x.X, field, d+1)
 	}
 	return false
 }
